@@ -111,6 +111,7 @@ def _build(d, maxdim):
         c0 = OFFSET[0]
         OFFSET[0] = 0
     case['c0'] = c0
+    case['ds'] = d.choice([0, 0, 0, 1, 2, 3, 4])
     return case
 
 
@@ -259,10 +260,28 @@ def _cells(grid, sheet='Sheet1', r0=0, c0=0):
     return out
 
 
+DOLLARS = [0]     # how the corners of ranges are spelled in the formulas
+
+
+def _dollar(a):
+    import re
+    k = DOLLARS[0]
+    if not k:
+        return a
+    c1, r1, c2, r2 = re.match(r'([A-Z]+)(\d+):([A-Z]+)(\d+)$', a).groups()
+    if k == 1:
+        return '$%s$%s:$%s$%s' % (c1, r1, c2, r2)
+    if k == 2:
+        return '$%s%s:%s$%s' % (c1, r1, c2, r2)
+    if k == 3:
+        return '%s$%s:$%s%s' % (c1, r1, c2, r2)
+    return '$%s%s:$%s%s' % (c1, r1, c2, r2)
+
+
 def _render(fn, args):
     return '=%s(%s)' % (fn, ','.join(
-        a if k == 'r' else ('Other!' + a) if k == 'r2' else repr(a)
-        for k, a in args))
+        _dollar(a) if k == 'r' else ('Other!' + _dollar(a)) if k == 'r2'
+        else repr(a) for k, a in args))
 
 
 def _permute_grid(grid, k):
@@ -278,10 +297,12 @@ def _permute_grid(grid, k):
 
 def judge(case):
     OFFSET[0] = case.get('c0', 0)
+    DOLLARS[0] = case.get('ds', 0)
     try:
         return _judge(case)
     finally:
         OFFSET[0] = 0
+        DOLLARS[0] = 0
 
 
 def _judge(case):
